@@ -22,12 +22,14 @@ def ren_node(n):
 
 def quiet(fn):
     """the conformity module prints progress bars through tqdm: replaced by the identity"""
-    old = conf_mod.tqdm
-    conf_mod.tqdm = lambda it, *a, **k: it
+    old = getattr(conf_mod, 'tqdm', None)
+    if old is not None:
+        conf_mod.tqdm = lambda it, *a, **k: it
     try:
         return with_stubs('random', 1, fn)[0]
     finally:
-        conf_mod.tqdm = old
+        if old is not None:
+            conf_mod.tqdm = old
 
 
 def flat(res):
